@@ -200,7 +200,8 @@ func getValidSSHPublicKey(userPubKey string) (ssh.PublicKey, error, error) {
 	// to prevent potential future panics we check anyway
 	cryptoPubKey, ok := userSSH.(ssh.CryptoPublicKey)
 	if !ok {
-		return nil, nil, fmt.Errorf("Cannot transform ssh key into crypto key, inbound=%s", userPubKey)
+		// i.e.: an ssh certificate presented as if it were a public key
+		return nil, fmt.Errorf("invalid file, not a plain public key"), nil
 	}
 	validKey, err = certgen.ValidatePublicKeyStrength(cryptoPubKey.CryptoPublicKey())
 	if err != nil {
